@@ -247,7 +247,8 @@ def r18_3(run):
     # collect every set(...) contribution to the slack set from the final condition of the component loop
     contribs = []
     for c in r.calls():
-        if c.fn == ("x", "builtins.set") and c.args and any(contains(c.args[0], ("n", "net")) for _ in (0,)):
+        # slacks |= set(<rows>) and slacks.update(<rows>) are the same event (arrnf): the argument of the update is the contribution
+        if c.fn[0] == "attr" and c.fn[2] == "update" and c.args and contains(c.args[0], ("n", "net")):
             contribs.append(c)
     found = {}
     for c in contribs:
